@@ -48,7 +48,7 @@
 #include "output_remote.c"
 
 #define MAXP   64      /* packets in flight per direction */
-#define MAXW   512     /* waiters */
+#define MAXW   2048    /* waiters (callers of A: 1.., callers of B: 1001..) */
 #define MAXH   16
 #define MAXREC 16
 #define PKTMAX 2048
@@ -80,8 +80,16 @@ static struct { int at; uintptr_t id; int reply; uint8_t d[PKTMAX]; size_t len; 
 static int nseen;
 
 static int waiter[MAXW + 1];
+static int waiter_ep[MAXW + 1];
 static uint32_t req_id[MAXW + 1];
 static int req_have[MAXW + 1];
+
+/* caller script of the step: what a waiting caller does when it is handed a reply */
+static int cb_ret, cb_chain, cb_w;
+static struct { int w; int r; uint32_t id; } chain[MAXREC];
+static int nchain;
+static int ep_await(int e, int w);
+static ssize_t ep_push(int e, size_t len, const void *src);
 
 /* responder script */
 static const char *act;
@@ -155,7 +163,20 @@ static int waiter_cb(void *arg, const MPT_STRUCT(message) *msg)
 		}
 		ncalls++;
 	}
-	return 0;
+	if (!msg) return 0;
+	/* follow-up request from inside the callback, on the connection the reply came in on */
+	if (cb_chain && nchain < MAXREC && cb_w + nchain >= 1 && cb_w + nchain <= MAXW) {
+		int e = waiter_ep[*w], nw = cb_w + nchain, r;
+		uint8_t d[2];
+		r = ep_await(e, nw);
+		chain[nchain].w = nw; chain[nchain].r = r; chain[nchain].id = r < 0 ? 0 : ep[e].con->cid;
+		nchain++;
+		if (r >= 0) {
+			d[0] = (uint8_t) nw; d[1] = 7;
+			if (ep_push(e, 2, d) >= 0) ep_push(e, 0, 0);
+		}
+	}
+	return cb_ret;
 }
 
 /* ---- network ---- */
@@ -265,6 +286,25 @@ static int ep_dispatch(int e)
 	return mpt_connection_dispatch(ep[e].con, handler, (void *) (intptr_t) e);
 }
 static int holding, hold_rp;
+static int ep_await(int e, int w)
+{
+	int r;
+	waiter[w] = w; waiter_ep[w] = e;
+	if (via_remote) r = ep[e].out->_vptr->await(ep[e].out, waiter_cb, &waiter[w]);
+	else r = mpt_connection_await(ep[e].con, waiter_cb, &waiter[w]);
+	if (r >= 0) { req_id[w] = ep[e].con->cid; req_have[w] = 1; }
+	return r;
+}
+static ssize_t ep_push(int e, size_t len, const void *src)
+{
+	if (via_remote) return ep[e].out->_vptr->push(ep[e].out, len, src);
+	return mpt_connection_push(ep[e].con, len, src);
+}
+static int ep_end(const struct cmd *c)
+{
+	const char *e = drv_raw(c, "end");
+	return e && !strcmp(e, "B");
+}
 
 /* ---- set up / tear down ---- */
 static void ep_clear(int e)
@@ -398,6 +438,21 @@ static void emit_calls(void)
 	}
 	j_arr_close();
 }
+static void emit_chain(void)
+{
+	int i;
+	j_arr_open("chain");
+	for (i = 0; i < nchain; i++) {
+		j_item_obj_open();
+		j_int("w", chain[i].w);
+		j_str("ret", chain[i].r < 0 ? "refused" : "ok");
+		j_close();
+	}
+	j_arr_close();
+	j_arr_open("cids");
+	for (i = 0; i < nchain; i++) j_item_int(chain[i].id);
+	j_arr_close();
+}
 static void emit_seen(void)
 {
 	int i;
@@ -453,7 +508,10 @@ static void drv_step(struct cmd *c)
 	const char *a = c->action;
 	int e;
 
-	nwire = ncalls = nseen = 0;
+	nwire = ncalls = nseen = nchain = 0;
+	cb_ret = (int) drv_int(c, "cret", 0);
+	cb_chain = (int) drv_int(c, "chain", 0);
+	cb_w = (int) drv_int(c, "cw", 0);
 	have_r2 = 0; r1 = r2 = 0; got_handle = -1;
 	defer_slot = (int) drv_int(c, "h", 0);
 	act = drv_raw(c, "act");
@@ -486,15 +544,13 @@ static void drv_step(struct cmd *c)
 	}
 	if (!strcmp(a, "await")) {
 		int w = (int) drv_int(c, "w", 0), r;
+		e = ep_end(c);
 		if (w < 1 || w > MAXW) { out_simple(c, "skipped"); free(rdata); return; }
-		waiter[w] = w;
-		if (via_remote) r = ep[0].out->_vptr->await(ep[0].out, waiter_cb, &waiter[w]);
-		else r = mpt_connection_await(ep[0].con, waiter_cb, &waiter[w]);
-		if (r >= 0) { req_id[w] = ep[0].con->cid; req_have[w] = 1; }
+		r = ep_await(e, w);
 		collect_from(0); collect_from(1);
 		drv_begin(c);
 		j_str("ret", r < 0 ? "refused" : "ok");
-		j_int("id", r < 0 ? 0 : (long long) ep[0].con->cid);
+		j_int("id", r < 0 ? 0 : (long long) ep[e].con->cid);
 		emit_calls();
 		emit_wire();
 		drv_dbg();
@@ -502,20 +558,22 @@ static void drv_step(struct cmd *c)
 		emit_dbg();
 		drv_end();
 	}
-	else if (!strcmp(a, "send")) {
+	else if (!strcmp(a, "send") || !strcmp(a, "request")) {
+		/* request = await + send in one step (end B) */
 		ssize_t r = 0, r0;
-		if (rlen) {
-			if (via_remote) r = ep[0].out->_vptr->push(ep[0].out, rlen, rdata);
-			else r = mpt_connection_push(ep[0].con, rlen, rdata);
+		int w = (int) drv_int(c, "w", 0), ra = 0;
+		e = ep_end(c);
+		if (!strcmp(a, "request")) {
+			if (w < 1 || w > MAXW) { out_simple(c, "skipped"); free(rdata); return; }
+			ra = ep_await(e, w);
 		}
+		if (ra >= 0 && rlen) r = ep_push(e, rlen, rdata);
 		r0 = r;
-		if (r >= 0) {
-			if (via_remote) r = ep[0].out->_vptr->push(ep[0].out, 0, 0);
-			else r = mpt_connection_push(ep[0].con, 0, 0);
-		}
+		if (ra >= 0 && r >= 0) r = ep_push(e, 0, 0);
 		collect_from(0); collect_from(1);
 		drv_begin(c);
-		j_str("ret", r < 0 ? "refused" : "ok");
+		j_str("ret", (ra < 0 || r < 0) ? "refused" : "ok");
+		if (!strcmp(a, "request")) j_int("id", ra < 0 ? 0 : (long long) req_id[w]);
 		emit_calls();
 		emit_wire();
 		drv_dbg();
@@ -541,13 +599,18 @@ static void drv_step(struct cmd *c)
 			rt = transfer(e, &p);
 			free(p.d);
 		}
-		rp = ep_poll(e);
+		if (d && !k && !only_hold && !is_stream && (ep[e].con->out.state & MPT_OUTFLAG(Received))) {
+			rp = 1;                                    /* a datagram sync() received and left for dispatch */
+		} else {
+			rp = ep_poll(e);
+		}
 		if (only_hold) { holding = 1; hold_rp = rp; }
 		else if (rp > 0) rd = ep_dispatch(e);
 		collect_from(0); collect_from(1);
 		drv_begin(c);
 		j_str("ret", "ok");
 		emit_calls();
+		emit_chain();
 		emit_seen();
 		emit_wire();
 		j_str("r2", got_handle >= 0 ? (got_handle ? "handle" : "nohandle") : !have_r2 ? "none" : r2 < 0 ? "refused" : "ok");
@@ -565,6 +628,7 @@ static void drv_step(struct cmd *c)
 		drv_begin(c);
 		j_str("ret", "ok");
 		emit_calls();
+		emit_chain();
 		emit_seen();
 		emit_wire();
 		drv_dbg();
@@ -603,6 +667,7 @@ static void drv_step(struct cmd *c)
 		drv_begin(c);
 		j_str("ret", r < 0 ? "refused" : "ok");
 		emit_calls();
+		emit_chain();
 		emit_wire();
 		drv_dbg();
 		j_int("r", r);
